@@ -185,14 +185,17 @@ def check(case, ctx):
         kind, f, spec = T[name]
         ci = None
         call = lambda X, c: ctx.call(f, gen.layout(X.copy(), case.get("order")))
-    o0 = call(W, ci)
+    # the caller holds ONE array: the measure is evaluated on it, and the renumbered networks are built from that same array afterwards
+    # (a routine that damages its argument returns a correct first value and spoils everything the caller derives from the array later)
+    Wh = gen.layout(W.copy(), case.get("order"))
+    o0 = ctx.call(f, Wh, ci.copy()) if ci is not None else ctx.call(f, Wh)
     if o0.status == "timeout":
         return fails
     perms = case["perms"]
     for p in perms:
         p = np.array(p, dtype=int)
         inv = np.argsort(p)
-        Wp = W[np.ix_(p, p)]
+        Wp = Wh[np.ix_(p, p)]
         cp = None if ci is None else ci[p]
         op = call(Wp, cp)
         if op.status == "timeout":
@@ -255,7 +258,7 @@ def check(case, ctx):
             ctx.mark_nontrivial({"row": name, "W": W, "p": p})
     # history: after the calls on the renumbered networks, the original network must give the original answer again
     # (a result cache keyed on shape / identity, or any other state kept between calls, would show here)
-    o9 = call(W, ci)
+    o9 = call(Wh, ci)
     if o9.status != "timeout" and o0.status != "timeout":
         d, how = compare.outcomes_equal(o0, o9)
         if d:
